@@ -191,9 +191,8 @@ fn strip_spans(mut n: Node) -> Node {
 }
 
 /// Base block for the generated variants of one era: a real block with
-/// 3..=max_n transactions (for Conway, where the corpus has none, the real
-/// 2-transaction block extended by the real Conway transactions of the `.tx`
-/// files); if it carries fewer than two auxiliary-data entries, real aux items
+/// 3..=max_n transactions (for Conway, where the corpus has none, a real
+/// Conway block extended by the real Conway transactions of the `.tx` files); if it carries fewer than two auxiliary-data entries, real aux items
 /// of other blocks are inserted (distinct bytes per key) so that the aux map
 /// is sparse: >= 2 keys, >= 1 transaction without.
 fn prepare_base(tag: u64, real: &[(&Artefact, &RefBlock)], max_n: usize) -> (u64, String, Vec<u8>) {
@@ -240,7 +239,7 @@ fn prepare_base(tag: u64, real: &[(&Artefact, &RefBlock)], max_n: usize) -> (u64
                     fix_width(&mut items[k]);
                 }
                 used.push(t.name.clone());
-                if idx + 1 >= 5 {
+                if idx + 1 >= (if max_n > 6 { 8 } else { 5 }) {
                     break;
                 }
             }
